@@ -301,8 +301,19 @@ def _batch(prop, seed, tier, scratch, t0):
                 print(p.stdout[-3000:])
                 core.harness_error("HARNESS-NONDETERMINISM: fresh-process replay of %s did not reproduce" % path)
             reported.append((cls, v3, path, len(items), idx))
+        # directed replay of every listed known finding: it is reported on every run, found by the random search or not
+        for kf in known:
+            if kf.get("status") != "known" or not kf.get("replay"):
+                continue
+            with open(os.path.join(VERIF, kf["replay"])) as f:
+                rep = json.load(f)
+            outk = execute_fresh(prop, rep["scenario"], scratch, "known_" + _slug(kf["key"])[:30])
+            if any(x["cls"] == kf.get("cls", x["cls"]) and x["sig"] == kf["key"] for x in outk.violations):
+                known_hit.setdefault(kf["key"], [kf, 0, -1])
+            else:
+                print("note: known finding no longer reproduces from %s: %s" % (kf["replay"], kf["key"]))
         for key, (kf, cnt, idx) in sorted(known_hit.items()):
-            print("KNOWN-FINDING: property=%s %s [%s; seen in %d scenario(s), e.g. #%d]" % (prop.ID, kf["what"], key, cnt, idx))
+            print("KNOWN-FINDING: property=%s %s [%s; directed replay %s; also met in %d random scenario(s)]" % (prop.ID, kf["what"], key, kf.get("replay", "-"), cnt))
         for cls, v3, path, cnt, idx in reported:
             print("violation class=%s sig=%s scenarios=%d first=#%d" % (cls, v3["sig"], cnt, idx))
             for l in v3["detail"][:14]:
